@@ -506,7 +506,7 @@ def parts(tier):
     q = tier == "quick"
     return [
         CH("first_match", "vflib.props.c09:scen_first_match", {"types": 3 if q else 4}, shards=8, timeout=170 if q else 900, path_timeout=30, mode="CH-P"),
-        CH("resolve", "vflib.props.c09:scen_resolve", {"types": 3 if q else 4}, shards=7 if q else 15, timeout=170 if q else 1500, path_timeout=30),
+        CH("resolve", "vflib.props.c09:scen_resolve", {"types": 3 if q else 4}, shards=7 if q else 15, timeout=170 if q else 900, path_timeout=30),
         SMT("replaces", "vflib.props.c09:kernel_replaces", {"validation_per_class": 20 if q else 60}, timeout=400, mode="SMT-S"),
         CH("grammar", "vflib.props.c09:scen_grammar", {}, shards=7, timeout=170 if q else 900, path_timeout=30),
         CH("disabled", "vflib.props.c09:scen_disabled", {}, shards=16, timeout=170 if q else 600, path_timeout=30),
